@@ -141,7 +141,9 @@ def build_holes(tier="quick"):
     n3 = 0
     for l in open(hdata):
         sh = json.loads(l)[1]
-        a = 1 if (sh[0] == "poly" and len(sh[2]) == 2) or (sh[0] == "rect" and sh[1] == [1, 1] and sh[2] == [8, 8]) else 0
+        concave_ext = sh[0] == "poly" and len(sh[1]) > 5
+        big_hole = sh[0] == "poly" and len(sh[2]) == 1 and len(sh[2][0]) > 7
+        a = 1 if (sh[0] == "poly" and (len(sh[2]) == 2 or concave_ext or big_hole)) or (sh[0] == "rect" and sh[1] == [1, 1] and sh[2] == [8, 8]) else 0
         if sh[0] == "poly" and len(sh[2]) == 3:   # every three-hole polygon in the thorough tier, every third one otherwise (by position)
             n3 += 1
             a = 1 if (tier == "thorough" or n3 % 3 == 0) else 0
